@@ -705,3 +705,31 @@ func E1VectorRenderPath(c *core.Ctx, r *core.Report) {
 		r.Assumed[k] = true
 	}
 }
+
+// E1DashInputs: dashing does not modify the pattern it is given (C05).
+func E1DashInputs(c *core.Ctx, r *core.Report) {
+	r.Rule("E1.dash-input-pure", "the dash pattern travels as a slice — from Context.SetDashes through the recorded styles to every renderer — and is shared by everything that was drawn with it. canvas.ScaleDash (which every back-end applies per path: pattern × stroke width × view scale), Path.Dash, dashCanonical and checkDash write no memory reachable from the pattern they are given (interprocedural effect analysis). A ScaleDash that multiplies in place compounds the factor with every path drawn: the second path is dashed with the pattern scaled twice, the third three times")
+	a := newEffects(c, r)
+	roots := []struct {
+		f    *ssa.Function
+		only []string
+	}{
+		{c.SSAFunc("", "ScaleDash"), []string{"d"}},
+		{c.SSAFunc("", "Path.Dash"), []string{"d"}},
+		{c.SSAFunc("", "dashCanonical"), []string{"d"}},
+		{c.SSAFunc("", "Path.checkDash"), []string{"d"}},
+	}
+	var fs []*ssa.Function
+	for _, rt := range roots {
+		fs = append(fs, rt.f)
+	}
+	a.solve(fs)
+	for _, rt := range roots {
+		a.reportEffects(r, "E1.dash-input-pure", rt.f, nil, "argument", rt.only...)
+	}
+	r.Count("E1.dash-roots", len(roots))
+	r.Floor("E1.dash-roots", 4)
+	for k := range a.extPure {
+		r.Assumed[k] = true
+	}
+}
